@@ -354,6 +354,7 @@ static void generate_opcode_app (sexp ctx, sexp app) {
   if (sexp_opcode_tail_call_p(op) && !sexp_context_tailp(ctx)) {
     sexp_warn(ctx, "tail-call only opcode in non-tail position: ", app);
     generate_lit(ctx, SEXP_VOID);
+    sexp_gc_release1(ctx);
     return;
   }
 
